@@ -31,10 +31,66 @@ type ProgCase struct {
 		Pcs    []int            `json:"pcs"`
 		Addrs  []int            `json:"addrs"`
 	} `json:"exp"`
+	// Model45: the cycle-accurate model spec/Mvp4 was evaluated for this case; Alt4/Alt5: the final state
+	// MVP-4 / MVP-5 reach as coded when the final ret drops queued write-backs (finding F09a), Lost = the
+	// executed instructions whose write-back is dropped (empty: the model predicts the sequential state).
+	Model45    bool            `json:"model45"`
+	Alt4       AltState        `json:"alt4"`
+	Alt5       AltState        `json:"alt5"`
 	FocusRegs  []string        `json:"focusRegs"`
 	FocusAddrs []int           `json:"focusAddrs"`
 	Tags       []string        `json:"tags"`
 	Extra      json.RawMessage `json:"extra"`
+}
+
+type AltState struct {
+	Lost []int            `json:"lost"`
+	Regs map[string]int32 `json:"regs"`
+	Mem  sparseMem        `json:"mem"`
+}
+
+// TagsFor returns the finding-class tags of the case as they apply to one configuration and (if given)
+// one observation.  For MVP-4/5 cases evaluated by the cycle-accurate model the coarse class
+// ret_after_store_miss is withdrawn: the model says exactly which write-backs the final ret drops, and
+// only an observation equal to that predicted state carries the tag mvp45_lost_writeback.
+func (c *ProgCase) TagsFor(cfg Config, o *Obs) []string {
+	if !c.Model45 || (cfg.Variant != "mvp4" && cfg.Variant != "mvp5") {
+		return c.Tags
+	}
+	var tags []string
+	for _, t := range c.Tags {
+		if t != "ret_after_store_miss" {
+			tags = append(tags, t)
+		}
+	}
+	alt := &c.Alt4
+	if cfg.Variant == "mvp5" {
+		alt = &c.Alt5
+	}
+	if len(alt.Lost) == 0 {
+		return tags
+	}
+	if o == nil { // asking whether the case is inside the envelope on this configuration
+		return append(tags, "mvp45_lost_writeback")
+	}
+	if o.Res.Failed() {
+		return tags
+	}
+	for _, name := range regNames[1:] {
+		if o.Res.Regs[name] != alt.Regs[name] {
+			return tags
+		}
+	}
+	for a := 0; a < c.MemSize; a++ {
+		want := int8(ImgByte(c.Img, a))
+		if b, ok := alt.Mem[a]; ok {
+			want = int8(b)
+		}
+		if o.Res.Mem[a] != want {
+			return tags
+		}
+	}
+	return append(tags, "mvp45_lost_writeback")
 }
 
 // sparseMem decodes both {"64": 1, ...} (TLA+ function) and [] (empty sequence).
